@@ -217,10 +217,15 @@ def cfg_of(st):
   return '?%r' % goals
 
 
+RAW_ORDER = []     # the order in which the last projected operation listed its trials (what the model leaves open)
+
+
 def proj_op(op):
   ids = []
   if op.HasField('response'):
-    ids = sorted(int(t.id) for t in vs.SuggestTrialsResponse.FromString(op.response.value).trials)
+    raw = [int(t.id) for t in vs.SuggestTrialsResponse.FromString(op.response.value).trials]
+    RAW_ORDER[:] = raw
+    ids = sorted(raw)
   return dict(done=op.done, err=op.HasField('error'), trials=ids)
 
 
@@ -276,7 +281,7 @@ class World:
     self.backend = backend
     self.svc = svc or make_servicer(backend_url(backend, scratch), conf.get('Recycle', 'never'))
     self.api = stub or self.svc     # what RPCs are sent to (servicer or gRPC stub)
-    self.owner_id = owner or 'o%d' % next(_counter)
+    self.owner_id = owner or 'Ow%d' % next(_counter)      # mixed case on purpose: names are not case-folded anywhere
     self.owner = 'owners/' + self.owner_id
 
   # conf['SharedStudyId']: every abstract study lives under its OWN owner and all of them share one study id
@@ -442,6 +447,21 @@ class World:
     if rpc == 'ListOptimalTrials':
       return sorted(int(t.id) for t in api.ListOptimalTrials(vs.ListOptimalTrialsRequest(parent=self.sname(s))).optimal_trials)
     raise KeyError(rpc)
+
+  def raw_listings(self):
+    """Listings exactly as served (order included): what the model abstracts into sets / id-indexed rows."""
+    out = {}
+    try:
+      studies = [x.name for x in self.api.ListStudies(vs.ListStudiesRequest(parent=self.owner)).studies]
+    except BaseException as e:  # pylint: disable=broad-except
+      return {'studies': err_class(e)}
+    out['studies'] = [n.split('/')[-1] for n in studies]
+    for n in sorted(studies):
+      try:
+        out[n.split('/')[-1]] = [int(t.id) for t in self.api.ListTrials(vs.ListTrialsRequest(parent=n)).trials]
+      except BaseException as e:  # pylint: disable=broad-except
+        out[n.split('/')[-1]] = err_class(e)
+    return out
 
   def run(self, c):
     """execute + error abstraction: returns {'err':..., 'val':...} like the model's resp."""
